@@ -32,7 +32,7 @@ func runC13(c *Ctx) {
 	c.L.Floor("C13.fold.search-window", 1)
 	c.L.Floor("C13.fold.confirm", 1)
 	c.L.Floor("C13.split.pipeline", 3)
-	c.L.Floor("C13.split.non-nil", 2)
+	c.L.Floor("C13.split.non-nil", 1)
 
 	if f := c.fn("stringutil", "ContainsFold"); f != nil {
 		c13Fold(c, f)
